@@ -33,6 +33,9 @@ fn main() {
         rig::install_logger();
         rig::set_log_level(5);
     }
+    if !matches!(args[1].as_str(), "proc" | "selfcheck") {
+        util::start_call_watchdog(120_000, format!("{} {}", args[1], args[2]));
+    }
     match (args[1].as_str(), args[2].as_str()) {
         ("merkle", "replay") => s_merkle::replay(&inp),
         ("merkle", "record") => s_merkle::record(seed, &tier, &out),
